@@ -219,16 +219,16 @@ Definition env_account_sortkey : fdef :=
      f_body := [(SUnpack [(TName "index"); (TName "name")] (XPrim "beancount.core.account_types.get_account_sort_key" [(XName "account_types"); (XName "acc")])); (SReturn (Some (XCallMethod (XConst (PV (VStr [123; 125; 45; 123; 125]))) "format" [(XName "index"); (XName "name")])))];
      f_gen := false |}.
 
-(* beanquery.query_env.date_bin_str (BQL date_bin); no theorem *)
-Definition envx_date_bin_str : fdef :=
-  {| f_params := ["stride"; "source"; "origin"];
-     f_body := [(SAssign (TName "stride") (XCall (XConst (PRef 2)) [(XName "stride")] None)); (SIf (XCompare (XName "stride") [(CIs, (XConst PNone))]) [(SReturn (Some (XConst PNone)))] []); (SReturn (Some (XCall (XConst (PRef 3)) [(XName "stride"); (XName "source"); (XName "origin")] None)))];
-     f_gen := false |}.
-
-(* beanquery.query_env.findfirst (BQL findfirst); no theorem *)
-Definition envx_findfirst : fdef :=
+(* beanquery.query_env.findfirst (BQL findfirst) *)
+Definition env_findfirst : fdef :=
   {| f_params := ["pattern"; "values"];
      f_body := [(SIf (XNot (XName "values")) [(SReturn (Some (XConst PNone)))] []); (SFor "value" (XPrim "builtins.sorted" [(XName "values")]) [(SIf (XPrim "re.match" [(XName "pattern"); (XName "value")]) [(SReturn (Some (XName "value")))] [])]); (SReturn (Some (XConst PNone)))];
+     f_gen := false |}.
+
+(* beanquery.query_env.date_bin_str (BQL date_bin) *)
+Definition env_date_bin_str : fdef :=
+  {| f_params := ["stride"; "source"; "origin"];
+     f_body := [(SAssign (TName "stride") (XCall (XConst (PRef 2)) [(XName "stride")] None)); (SIf (XCompare (XName "stride") [(CIs, (XConst PNone))]) [(SReturn (Some (XConst PNone)))] []); (SReturn (Some (XCall (XConst (PRef 3)) [(XName "stride"); (XName "source"); (XName "origin")] None)))];
      f_gen := false |}.
 
 (* beanquery.query_env.interval (BQL interval); no theorem *)
